@@ -418,6 +418,29 @@ int p_codec(void)
 				}
 				block_free(&bu);
 			}
+			if ((g_pf.mon & MON_C03) && ce->large && c.codec == 3 && n > 3000 && b.sys && b.g) {
+				/* big blocks get few histories, so they are chosen with the oracles: two-rate receptions are drawn until three are found that
+				 * determine the block (rank oracle) although peeling alone stalls - the ones where Gaussian elimination decides */
+				unsigned found = 0; uint8_t *recv = calloc(n + 1, 1);
+				for (int tries = 0; tries < (T ? 60 : 20) && found < (n > 20000 && !T ? 2u : 3u); tries++) {
+					memset(inset, 0, n);
+					uint32_t keepq = rng_below(&r, 4), lostn = 0;
+					for (uint32_t e = 0; e < c.k; e++) { inset[e] = rng_below(&r, 4) < keepq; lostn += !inset[e]; }
+					uint32_t mr = lostn + rng_below(&r, 2 * lostn + 2); if (mr > c.r) mr = c.r;
+					sub_reserve((size_t)n * 2 + 8);
+					for (uint32_t e = 0; e < c.r; e++) g_sub[e] = c.k + e;
+					for (uint32_t i = 0; i < mr; i++) { uint32_t j = i + rng_below(&r, c.r - i); uint32_t t = g_sub[i]; g_sub[i] = g_sub[j]; g_sub[j] = t; inset[g_sub[i]] = 1; }
+					memcpy(recv, inset, n); if (b.null_claim) recv[n - 1] = 1;
+					gf2_peel_t *pl = gf2_peel_new(b.sys); int all = 1;
+					for (uint32_t e = 0; e < n; e++) if (recv[e]) gf2_peel_add(pl, e);
+					for (uint32_t e = 0; e < c.k; e++) if (!pl->known[e]) { all = 0; break; }
+					gf2_peel_free(pl);
+					if (all || !oracle_solvable(&b, recv)) continue;
+					run_one(&b, inset, 0, 0, hash64(uh, 8000 + (uint64_t)tries), &r, 0);
+					found++; rep_count("oracle_chosen_histories_where_elimination_decides", 1);
+				}
+				free(recv);
+			}
 			if ((g_pf.mon & (MON_C04 | MON_C03)) && ce->large && c.codec == 3 && ((g_pf.mon & MON_C04) || n > 3000))
 				for (unsigned s = 0; s < (T ? 24u : 6u); s++) run_chain(&b, hash64(uh, 7000 + s), &r);
 			free(inset);
